@@ -31,6 +31,7 @@ def one(m, tier, with_suite):
         return m["name"], p.returncode, (first[0][:230] if first else p.stdout.strip().splitlines()[-1][:230]), suite
     finally:
         subprocess.run(["git", "-C", "/repo", "worktree", "remove", "--force", wt], capture_output=True)
+        subprocess.run(["rm", "-rf", "/tmp/verif-out-" + os.path.basename(wt)])
 
 
 def main():
